@@ -150,7 +150,15 @@ func terminalOutcome(s string) bool {
 
 func checkLife(cs *lifeCase, o *pt.Obs) error {
 	lo, hi := tsBounds(cs.DS.Events)
-	req := scriptReq{Index: execIndex, Start: lo, End: hi, Queries: cs.Queries, Actions: cs.Actions, QuiesceMs: lifeQuiesceMs, SettleMs: lifeSettleMs}
+	queries := append([]string(nil), cs.Queries...)
+	for i, q := range queries {
+		if id := knownExecFinding(execQuery{"spl", q}); id != "" {
+			// same exclusion as in sub-check (b): the query class is an open finding
+			o.Known(id)
+			queries[i] = "* | head 1"
+		}
+	}
+	req := scriptReq{Index: execIndex, Start: lo, End: hi, Queries: queries, Actions: cs.Actions, QuiesceMs: lifeQuiesceMs, SettleMs: lifeSettleMs}
 	body, _ := json.Marshal(&req)
 	for _, a := range cs.Actions {
 		o.Class("action_" + a.Kind)
